@@ -11,12 +11,21 @@ META = {
              "not_holds_of_not_allHeadEq with closed witnesses name+\"X\" for substring tests and name+\",o\" for whole-tag equality); "
              "witness_keywords / witness_values / witness_createdAtX / witness_key_with_option for the legacy predicates; "
              "agree_plain_partial (tags in which no reserved name occurs except as the whole tag); classify_sound ties it to the "
-             "predicates extracted from conversions.go. The value half of the property (typed conversions, server precedence of typed "
-             "values over the bytes body, metadata) is TESTED end to end, not proved."),
-    "note": ("Trusted: Lean kernel (propext, Classical.choice, Quot.sound); extract/c22.go; harness/c22.go + the verif accessors in "
-             "sdk/go/hydraidego/verif_export.go. Value round trip per Go kind is covered only for string and time.Time fields in the "
-             "end-to-end run (every Go field kind: not covered). Profile models key fields by Go field name and parse options with "
-             "exact comparison; they are outside the tag-interference question."),
+             "predicates extracted from conversions.go. Value half: Values.convert_roundtrip / body_roundtrip — with the four conversion "
+             "tables extracted from the SDK and the gateway (Go kind -> proto field -> server content type -> proto field -> Go kinds) "
+             "connecting every kind to itself without a narrowing hop, every well-typed value of the exact domain (all int/uint widths "
+             "in range, floats, bool, strings, []byte, slices, maps, pointers, time) comes back unchanged through the value slot and "
+             "through a map-body field, with or without omitempty; closed witnesses time_value_truncated, struct_value_dropped, "
+             "nil_body_field_unreadable, omitempty_normalises, gob_nil_empty_witness; holds_of_good for repaired flags."),
+    "note": ("PROVED (Lean, all inputs): tag classification agreement iff head comparison (slots_agree); value round trip per kind through "
+             "the extracted conversion tables incl. integer width/sign of every hop, omitempty, overwrite (convert_roundtrip, body_roundtrip, "
+             "Values.holds_of_good) and the closed witnesses. TESTED end to end on every run (real SDK + gRPC + in-process server, compared with "
+             "the model line by line): 25 Go field types x boundary/random values x {catalog value, map-body field, profile field} x "
+             "{omitempty on/off}, overwrite of a stored value, tag interference on save/read. PARAMETERS (assumed lawful on non-empty "
+             "containers, tested): gob / msgpack codecs, msgpack of scalars inside the map body, IEEE float conversions, protobuf "
+             "transport. Arrays and non-UTF-8 strings are refused with an explicit error and are outside the claim. Trusted: Lean kernel "
+             "(propext, Classical.choice, Quot.sound); extract/c22.go, extract/c22val.go; harness/c22*.go + sdk verif_export.go. The "
+             "patch-expired result decoder (third tag classifier) is fixed but not modelled."),
     "design_ref": "§8 C22",
 }
 
@@ -27,6 +36,21 @@ FINDINGS = {
     "C22-whole-tag-equality": "the encoder compares the whole tag with \"key\": `hydraide:\"key,omitempty\"` is a key for the decoder and the "
                               "shape detector but not for the encoder (CatalogSave fails with `key field not found`)",
 }
+
+FINDINGS.update({
+    "C22-nil-body-field-unreadable": "a nil slice / map / pointer in a map-body field without omitempty is saved as msgpack nil; CatalogRead of "
+                                     "that treasure then fails with `decode map-body field …: EOF`",
+    "C22-value-time-truncated": "a time.Time used as THE value is sent as Unix seconds: the sub-second part does not come back "
+                                "(2031-02-03T04:05:06.789Z reads back as …:06Z); in a map-body field it is exact",
+    "C22-struct-value-dropped": "a struct (other than time.Time) used as THE value is silently not sent: it reads back as the zero struct, no error",
+    "C22-omitempty-normalises": "with omitempty an empty non-nil []byte / slice / map reads back nil and -0.0 reads back +0.0 (isFieldEmpty treats "
+                                "len 0 and ±0 as empty)",
+    "C22-gob-nil-empty": "gob (library): without omitempty an empty slice value reads back nil and a nil map value reads back empty",
+    "C22-void-overwrite-keeps-old-value": "overwriting a stored value with nothing (nil pointer / nil []byte / zero time, or a zero value under omitempty) "
+                                          "leaves the OLD value: the server's SetContentVoid does not clear a typed content (save 255, save 0 with "
+                                          "omitempty, read -> 255)",
+    "C22-value-conversion": "a value does not come back through CatalogSave / CatalogRead",
+})
 
 RESERVED = ["key", "value", "expireAt", "createdBy", "createdAt", "updatedBy", "updatedAt"]
 TIMES = {"expireAt": ("EA", "2240611201"), "createdAt": ("CA", "1609459202"), "updatedAt": ("UA", "1640995203")}
@@ -57,9 +81,44 @@ def expected(tag):
     return "%s es=%s et=%s ds=%s dt=%s" % (shape, es, et, ds, dt)
 
 
+def val_finding(f, line):
+    """finding id for a `val` op whose reply is not `same`, from the op text alone"""
+    slot, kind, om, desc = f[1], f[2], f[3] == "1", f[4]
+    if line == "err":
+        if kind == "arr":
+            return "refused"
+        if kind == "str":
+            try:
+                bytes.fromhex("" if desc[2:] == "-" else desc[2:]).decode("utf-8")
+            except UnicodeDecodeError:
+                return "refused"
+        return "C22-nil-body-field-unreadable" if slot == "b" and desc.endswith(":nil") else "C22-value-conversion"
+    kind = {"nbytes": "bytes", "nstr": "str", "ni32": "i32"}.get(kind, kind)
+    empty = desc in ("y:-", "c:0", "y:nil", "c:nil") or (kind == "f32" and desc == "f:2147483648") or (kind == "f64" and desc == "f:9223372036854775808")
+    if om and empty:
+        return "C22-omitempty-normalises"
+    if kind == "time":
+        return "C22-value-time-truncated"
+    if kind == "struct":
+        return "C22-struct-value-dropped"
+    if kind in ("strs", "i64s", "u32s", "map") and slot in ("v", "p"):
+        return "C22-gob-nil-empty"
+    return "C22-value-conversion"
+
+
 def oracle(rep):
     for op, line in zip(rep["ops"], rep["impl"]):
         f = op.split(" ")
+        if f[0] == "upd":
+            if line == "stale":
+                return ("C22-void-overwrite-keeps-old-value", "`%s`: the second save did not replace the first value" % op)
+            f = ["val", f[1], f[2], f[3], f[5]]
+        if f[0] == "val":
+            if line != "same":
+                fid = val_finding(f, line)
+                if fid != "refused":
+                    return (fid, "`%s`: the value read back is not the value saved (%s)" % (op, line))
+            continue
         if f[0] not in ("tag", "rt"):
             continue
         tag = _tag(f[1])
@@ -72,7 +131,8 @@ def oracle(rep):
 
 
 def spec_violated(rep):
-    r = oracle(rep)
+    # ops of this domain are independent: judge the op at which model and implementation part ways
+    r = oracle({"ops": rep["ops"][-1:], "impl": rep["impl"][-1:]})
     return r[1] if r else None
 
 
@@ -84,19 +144,19 @@ def run(ctx):
     K.report_mismatch(ctx, spec_violated)
     c = corrs[0][2] if corrs else K.Corr()
     hits = 0
-    if corrs and not c.mismatch and not c.err:
+    if corrs and not c.err:
         for i, (op, line) in enumerate(zip(c.ops, c.impl)):
             r = oracle({"ops": [op], "impl": [line]})
             if r:
                 hits += 1
                 fid, text = r
-                if fid in getattr(ctx, "confirmed", {}):
-                    continue
+                if fid in getattr(ctx, "confirmed", {}) or fid in K.known_ids(ctx.pid):
+                    continue   # a recorded finding (reported by decide_standard when the model predicts it)
                 ctx.violation("implementation violates the property: " + text,
                               {"correspondence": "C22", "drv_args": corrs[0][1], "ops": [op], "impl": [line],
                                "model": [c.model[i] if i < len(c.model) else "<missing>"]}, tag=fid)
                 break
-    U.leancheck(ctx, ["Hv.Props.C22", "Hv.Misc.SdkTags"])
+    U.leancheck(ctx, ["Hv.Props.C22", "Hv.Misc.SdkTags", "Hv.Misc.SdkValuesLemmas", "Hv.Misc.SdkValues"])
     rt = [l for o, l in zip(c.ops, c.impl) if o.startswith("rt ")]
     return K.finish(
         ctx, "proof",
@@ -104,11 +164,15 @@ def run(ctx):
               "+ random tags built from reserved names, fragments of them, letters and options; `tag` = shape detector, encoder and "
               "decoder probes (string- and time-typed field) through the real conversion functions; `rt` = reflect-built model "
               "(key, optional metadata fields, the tagged field, a plain body field) saved and read back through gRPC/bufconn and "
-              "the in-process gateway, plus a probe read of the metadata; every op is non-trivial; distinct = distinct op lines"),
-        samples=[{"op": c.ops[i], "tag": _tag(c.ops[i].split(" ")[1]), "impl": c.impl[i]} for i in range(1, min(len(c.ops), 7))],
+              "the in-process gateway, plus a probe read of the metadata; `val` = one field of each of 25 Go types (all int/uint "
+              "widths, floats incl. -0/NaN/Inf/denormal, bool, string, []byte, three slice types, map, three pointer types, time, "
+              "struct, array) x boundary table + random values, as THE value and as a map-body field, with and without omitempty, "
+              "saved and read back end to end; every op is non-trivial; distinct = distinct op lines"),
+        samples=[{"op": c.ops[i], "impl": c.impl[i]} for i in list(range(1, min(len(c.ops), 5))) + [j for j, o in enumerate(c.ops) if o.startswith("val ")][:4]],
         evaluations=len(c.ops), distinct_nontrivial=max(len(set(c.ops)) - len(c.cases), 0),
         extra_cov={"correspondence": {"domain": "C22", "op_lines": len(c.ops), "mismatching_lines": len(c.mismatch),
-                                      "op_histogram": c.op_hist, "rt_ok": rt.count("ok"), "rt_bad": sum(1 for l in rt if l.startswith("bad")),
+                                      "op_histogram": c.op_hist, "val_replies": {k: sum(1 for o, l in zip(c.ops, c.impl) if o.split(" ")[0] in ("val", "upd") and l == k) for k in ("same", "nilempty", "stale", "diff", "err")},
+                                      "rt_ok": rt.count("ok"), "rt_bad": sum(1 for l in rt if l.startswith("bad")),
                                       "oracle_hits": hits, "lines_flagged_by_model": sum(1 for f in c.flags if f)}},
         trusted=["Lean 4.33.0 kernel", "axioms: propext, Classical.choice, Quot.sound", "extract/c22.go", "harness/c22.go",
                  "sdk/go/hydraidego/verif_export.go (accessors)", "value conversions: tested end to end, not proved"],
